@@ -11,6 +11,32 @@ TRUSTED = ("trusted base: CPython 3.12, the harness seams of mc/env.py (determin
            "the reference models in ref/; the check imports /repo's working tree directly (VERIF_REPO)")
 
 CHECKS = {
+    "C01": dict(
+        engine="input",
+        category="model_checking",
+        technique="bounded-exhaustive enumeration of documents (layers of values, attributes, cardinalities, tree shapes, pairs of "
+                  "deviations) x writer/reader configurations against a round-trip law, an independent vocabulary check and a "
+                  "foreign emitter",
+        text="All value lists of length <=2 (quick) / <=3 (thorough) over 25 text atoms (comma, quotes, brackets, list look-alikes, "
+             "line breaks incl. U+2028/U+0085, XML metacharacters, non-ASCII, blanks, empty) and the typed atoms of every dtype "
+             "incl. n-tuples; every optional attribute x every atom; every cardinality normal form incl. min=max, min 0 and two-digit "
+             "bounds; all ordered forests with <=4/5 Sections; all pairs of deviations on 3-node trees; each through 8 writer entries "
+             "x compatible readers (string/file, strict/lenient, styled via odml.load): loaded snapshot equals the trimmed original "
+             "(ids, order, dtypes, typed values, cardinalities), written text parsed with plain lxml against a hard-coded 1.1 "
+             "vocabulary, strict reader without warnings, unrepresentable text makes the writer raise, and files emitted by an "
+             "independent emitter (3 renderings) load to the document they describe.",
+        design="DESIGN.md C01"),
+    "C02": dict(
+        engine="input",
+        category="model_checking",
+        technique="bounded-exhaustive enumeration of documents x {JSON, YAML} x entry points against exact snapshot equality, stock "
+                  "json/yaml layout check, foreign dictionaries and cross-format agreement",
+        text="The document layers of C01 extended by YAML/JSON look-alike atoms (yes, null, ~, 1e3, dates, 0x1F, ': x', '- a', '#c', "
+             "...) and falsy attribute values, x {JSON, YAML} x {to_string/from_string, write_file/from_file, odml.save/odml.load} + "
+             "DictWriter.to_dict -> DictReader.to_odml strict and lenient: exact snapshot equality (no trimming), text parsed with "
+             "stock json / yaml.safe_load against the hard-coded layout, a dictionary built from the snapshot without the library in "
+             "three renderings (compact JSON, flow YAML, block YAML with reversed keys) loads to the same document, JSON = YAML = XML.",
+        design="DESIGN.md C02"),
     "C03": dict(
         engine="history",
         category="model_checking",
